@@ -20,6 +20,8 @@
 (*   - for the same cases checks scale equivariance (ScaleEquivariant):     *)
 (*     c*A has the same exact basis, c*H, the same breakdown step and      *)
 (*     expected observables, for the dyadic factors of ScaleSet,           *)
+(*   - and start-vector invariance (StartScaleInvariant): (A, c v) has the  *)
+(*     same exact factorisation as (A, v) for the same dyadic factors,     *)
 (*   - prints the exact expectations consumed by the harness (Emit).       *)
 (* Blocks of cases are chained so that TLC workers share the catalog.      *)
 (***************************************************************************)
@@ -89,6 +91,15 @@ ScaleEquivariant ==
         /\ LET ks == Len(ExactArnoldi(MScale(s, c.A), VCol(ci)).q)
            IN /\ ks = kd
               /\ \A q \in 1..(c.A.r + Extra): Expect(q, c.A.r, ks) = Expect(q, c.A.r, kd)
+
+\* start-vector invariance on the exact-breakdown cases: c*v (dyadic c) gives the same exact basis, the same H and
+\* the same breakdown step, hence the same expected observables
+StartScaleInvariant ==
+    (AtEntry /\ Case(ci).exact) =>
+      LET c == Case(ci) IN
+      \A s \in ScaleSet:
+        /\ StartScaleInvariantAt(c.A, VCol(ci), s)
+        /\ Len(ExactArnoldi(c.A, MScale(s, VCol(ci))).q) = kd
 
 CtlOK ==
     /\ L!CtlInv(alg, N(ci), m, st)
